@@ -250,6 +250,16 @@ def main(argv=None):
             seen_known.add(fid)
         stats["witness_cases"] += 1
 
+    # deterministic regression cases (former witnesses of repaired defects): any violation is an ordinary violation
+    for name, case in (mon.regressions() if hasattr(mon, "regressions") else []):
+        try:
+            res = mon.check_case(case)
+        except Exception:
+            res = dict(violations=[dict(kind="monitor-crash", detail=traceback.format_exc()[-1500:], mechanism=None)])
+        stats["regression_cases"] += 1
+        for v in res.get("violations", []):
+            violations.append(dict(v, seed=a.seed, shard=-1, case_index=-1, case=case, regression_case=name))
+
     real = []
     for v in violations:
         fd = classify(pid, v, findings)
